@@ -3,7 +3,7 @@
    encoding) are assumed faithful; what the library itself adds is modelled in
    Model/Factorize.v (multi-key combination, counting sort) and Model/GroupByApi.v (pointer
    unification of chunk-local codes). *)
-From Coq Require Import List ZArith Bool.
+From Coq Require Import List ZArith Bool Sorting.Permutation.
 From GL Require Import Lib.Arr Model.Factorize Model.GroupByApi Spec.RowSpec
   Proofs.FactorizeProofs Proofs.CombineProofs Proofs.MonoProofs Proofs.IndexerProofs Proofs.SelectProofs Proofs.ChunkedKeys.
 Import ListNotations.
@@ -41,6 +41,15 @@ Print Assumptions C02_weight_code_sum_is_mixed_radix.
 Print Assumptions C02_mixed_radix_injective.
 Print Assumptions C02_combine_faithful.
 Print Assumptions C02_same_code_iff_same_key.
+
+(* 1b'. sort=True: relabelling by any permutation of the labels (codes through the inverse permutation, null kept)
+   keeps the factorization faithful and the labels distinct *)
+Theorem C02_sorted_relabelling_is_faithful p labels rows codes :
+  Permutation p (seq 0 (length labels)) -> Forall2 (code_ok labels) rows codes -> NoDup labels ->
+  let r := relabel p labels codes in
+  Forall2 (code_ok (snd r)) rows (fst r) /\ NoDup (snd r) /\ Permutation (snd r) labels.
+Proof. exact (relabel_faithful p labels rows codes). Qed.
+Print Assumptions C02_sorted_relabelling_is_faithful.
 
 (* 1c. the monotonic fast path: the cut-off is the length of the longest null-free non-decreasing
    prefix; on it the codes are faithful and the labels strictly increasing (distinct, sorted), each
